@@ -19,6 +19,9 @@ CHECKS = {
  'C16': dict(design='5.11', engine='B',
    text='Inductive step on the real Queue.h (clang IR -> ir2c -> CBMC): from an ARBITRARY ring state satisfying the representation invariant (capacity and count per job; head offset, every slot incl. stale ones, and arguments symbolic) each public operation returns what an ideal sequence would, leaves the ideal content, and re-establishes the invariant; hence sequences of any length within the capacity bound. int32 items everywhere, an owning item type on the slot-vacating operations.',
    note='Capacities 3..6 (quick) / 3..9 (thorough). Arguments that size an allocation (EnsureSize request, start/count of multi-adds, insert index when full) are enumerated constants incl. 2^31 and 2^32-1, all others symbolic. Sorting/searching operations only up to 3 (quick) / 5 items. Translation validated per run by native differential execution.'),
+ 'C17': dict(design='5.12', engine='B',
+   text='Real String.cpp/String.h (clang IR -> ir2c -> CBMC): for each operation and each receiver/operand length around the inline capacity (15), in both representations (inline and heap, also heap-backed short strings), with every content byte symbolic: result bytes, length, NUL termination and Length() < GetNumAllocatedBytes() equal a plain char-array model, including self-aliasing operands (s += s, SetCstr(pointer into s), s = s) and Flatten/Unflatten incl. rejection of unterminated input.',
+   note='Lengths are job constants (0,1,14,15,16 quick; up to 20 thorough), operands 0-3 bytes. Outside: content-dependent result lengths (Replace/Trimmed/...), Arg/numeric formatting, LastIndexOf(char), s += (pointer into s) with growth, HashCode. String::IsCharInLocalArray is cut to an equivalent model without cross-object pointer ordering; translation validated per run by native differential execution.'),
  'C20': dict(design='5.13', engine='B',
    text='The whole of PulseNode.cpp executed symbolically on small trees: with every requested time and every instant symbolic, CBMC proves the reported wake-up time is the minimum over attached nodes, each node fires exactly once iff due and never early with its own scheduled time, stale nodes are re-asked exactly once (fired / invalidated / re-attached), detached nodes are never asked, plus the structural invariant of the three child lists.',
    note='At the edge of reach (6.8 M SAT variables for root+2 leaves, recalc+pulse): quick = all scenarios on root+1 leaf and recalc+pulse on root+2 leaves; thorough adds 3-4 node trees with 24 GB / 50 min per job. Times range over {0..7, never}. Translation validated per run by native differential execution.'),
@@ -35,7 +38,7 @@ NA = {
  'C19': NA_DESIGN + 'pending/deferred Hashtables of message queues per client, real Thread objects and condition variables',
 }
 PENDING = {  # claimed by DESIGN.md but whose check is not built yet at this commit: listed as not claimed until it exists
- 'C01': '5.1', 'C09': '5.9', 'C12': '5.7', 'C14': '5.8', 'C15': '5.10', 'C17': '5.12',
+ 'C01': '5.1', 'C09': '5.9', 'C12': '5.7', 'C14': '5.8', 'C15': '5.10',
 }
 def main():
     m = {'version': 1,
